@@ -4,4 +4,4 @@ CONSTANTS
   MaxSeg = 1
   MaxDepth = 1
   Mut = "wrongparam"
-INVARIANTS FirstMatch NoPrefix MatcherAgrees MapThenRoute PoolWhole
+INVARIANTS FirstMatch NoPrefix MatcherAgrees MapThenRoute PoolWhole PoolFirst
